@@ -52,6 +52,7 @@ func main() {
 		os.Exit(2)
 	}
 	c := NewCheck(id, def.level)
+	curCheck = c
 	rng := rand.New(rand.NewSource(c.Seed*7919 + 17))
 	sig := make(chan os.Signal, 1)
 	signal.Notify(sig, syscall.SIGINT, syscall.SIGTERM)
@@ -84,8 +85,18 @@ func infra(format string, a ...interface{}) {
 	panic(infraErr(fmt.Sprintf(format, a...)))
 }
 
+var curCheck *Check
+
 func must(err error, what string) {
 	if err != nil {
+		if nr, ok := err.(*NotReadyError); ok && curCheck != nil {
+			// On the unchanged tree the proxy serves 2-3 s after start. A proxy that is
+			// alive but never starts to route (its table never loads, its backend
+			// handshakes never complete) is a behavioural failure, not harness trouble.
+			curCheck.Violate(Violation{Class: "proxy-never-serves", Shape: "at-startup",
+				Detail:  what + ": the proxy process is alive but did not start routing requests within 20 s of start (nominal 2-3 s)",
+				Witness: map[string]interface{}{"stderr_tail": nr.Msg}})
+		}
 		infra("%s: %v", what, err)
 	}
 }
